@@ -25,10 +25,32 @@ CLAIMS = {
  "C07": ("dominance of enqueue by the auth-check true edge, select_method/check edge analysis, cache key type + dataflow + expiry task shape, TLS ServerConfig builder who-may-call, TLS-accept stream choice, insecure-flag dominance",
          "Enqueue only after AuthData::check on the presented credentials, NONE only when not required, cache keyed by the pair with expiry, every server config uses the configured client verifier, TLS stream used when TLS configured, verification disabled only under `insecure`. Not rustls' validation itself.",
          "Trusts rustls verifiers and the external auth command.", "3/C07"),
+ "C08": ("table agreement of Accessible type_of vs get (T-acc), declared vs converted parameter types of builtins (T-sig), rule P over parser/checker/evaluator with arity and slice-length discharges and anchored table, load-time = run-time entry points",
+         "The checker and the evaluator agree on attribute and builtin parameter types, every panic edge in the rule language is discharged (no unchecked integer arithmetic, arity and index guards), and what is checked at load is what is evaluated. Not a proof of full type soundness.",
+         "Trusts the regex crate and rustc; parser-shape invariants are table entries tied to anchors.", "3/C08"),
  "C09": ("PEG extraction from MIR + table comparison with readme (ordered-choice shadowing, ladder, fold direction, constructor totality, blank coverage)",
          "Structural necessary conditions of the documented grammar, decided on the grammar extracted from the type-checked parser: level sets equal the readme table, no prefix-shadowed alternative, left folds, total/live constructor tables, blank skipper before every token. Not a proof of tree equality for all inputs.",
          "Trusts nom's documented ordered-choice semantics and rustc's MIR; the readme table is taken as the documentation.", "3/C09"),
 }
+
+CLAIMS.update({
+ "C10": ("linear use of received frames (move into a send on every non-error path), inspected receive results incl. select! branch outputs, payload identity dataflow in every FrameWriter::write, address labelling, session-key dataflow",
+         "Received datagrams are not dropped on success paths of accept functions, receive errors are inspected, writers hand the whole body to the transport, replies keep the source label, session ids/keys agree between registration, lookup and cleanup. Not delivery across the network.",
+         "Trusts kernel UDP demultiplexing and mpsc channels.", "3/C10"),
+ "C11": ("codec table agreement of the fragment header, rule P with header-validation anchors, wrapping counter, timer wiring",
+         "Only the structural clauses: header fields/width agree between fragmenter and reassembler, peer-supplied total/seq are validated before use, the id counter wraps, expiry is driven. The permutation/duplication law is NOT decided (stated in evidence).",
+         "Trusts bytes::Buf semantics.", "3/C11"),
+ "C12": ("allowed-primitive rule over decoder read sites, delimiter-verification dominance, frame-completeness dominance, header arithmetic agreement, read-ahead hand-over",
+         "Handshake decoders only use completion-looping reads, delimiter-terminated fields are accepted only when the delimiter was seen, framed reads return only complete frames, read_head/from_buffer agree, read-ahead is drained. Equality over all cut sets follows from the tokio contracts and is not enumerated.",
+         "Trusts tokio's read_exact/read_uN/read_line/read_until contracts.", "3/C12"),
+ "C13": ("def-use order of the configured timeout in main, field-to-field dataflow through create_context and session creators, guard dominance of the idle error",
+         "The configured timeouts reach tunnels and UDP sessions, the idle close needs both directions idle with the same period, zero disables, transfers refresh the activity stamp. Not wall-clock accuracy.",
+         "Trusts tokio interval and the system clock.", "3/C13"),
+ "C14": ("guard-liveness x await classification over every coroutine (LK1/LK2), accept-loop inline-await rule (LK3), lock-order graph (LK4), handler summaries (LK5); unclassified awaits fail closed",
+         "No registry lock across peer-controlled awaits / bounded sends / context locks, no context lock across peer input, accept loops do nothing peer-dependent inline, lock order acyclic, API handlers only wait for locks and local work. Not latencies or lock fairness.",
+         "Trusts tokio lock fairness for short sections; PEER-OUT under the context lock is recorded, not armed.", "3/C14"),
+})
+
 NA = {}
 ALL = ["C%02d" % i for i in range(1, 20)]
 
